@@ -187,8 +187,68 @@ def c_counts():
                     ensures=[('C13-the-classification-is-not-written', 'same(classify, old(classify))')], signals={}, variant='frame')
 
 
+# ---- TestStatsTestsByLabels._build_labels_lod: one iteration of the inner loop (one test result)
+VAL = T('Ref', 'Val')
+LABELS = 'Map[Str,Ref:Val]'
+
+
+def lod_world():
+    from pyvc.verify import World
+    w = World()
+    w.globals['LOGGER'] = SNamespace('LOGGER', dropped=True)
+    ok, ko = z3.Const('TestOutcome_SUCCESS_as_label', zsort(VAL)), z3.Const('TestOutcome_FAILURE_as_label', zsort(VAL))
+    w.globals['TestOutcome'] = SNamespace('TestOutcome', {'SUCCESS': SV(VAL, ok), 'FAILURE': SV(VAL, ko)})
+    w.globals['Strings'] = SV(T('Set', T('Str')), z3.K(z3.StringSort(), z3.BoolVal(True)))
+    w.lod_distinct = ok != ko
+
+    class TRes(ClassModel):
+        name = 'TestResultX'
+        fields = {}
+
+        def m___bool__(self, I, me):
+            return I.getfield(me, 'verdict')
+    w.class_models['TestResultX'] = TRes(w)
+    w.class_models['TestX'] = type('TestX', (ClassModel,), {'name': 'TestX', 'fields': {}})(w)
+    return w
+
+
+def lod_body(fn):
+    import ast as _ast
+    outer = [st for st in fn.body if isinstance(st, _ast.For)]
+    if len(outer) != 1:
+        raise Undecided('_build_labels_lod is no longer one loop over the task results')
+    inner = [st for st in outer[0].body if isinstance(st, _ast.For)]
+    if len(inner) != 1 or not (isinstance(inner[0].target, _ast.Name) and inner[0].target.id == 'test_result'):
+        raise Undecided('_build_labels_lod no longer has an inner loop `for test_result in ...`')
+    return inner[0].body
+
+
+def lod_setup(I, scope):
+    from pyvc.values import parse_type
+    I.path.assume(I.world.lod_distinct)
+    labels = I.fresh(parse_type(LABELS), 'labels')
+    test = I.alloc('TestX', {'labels': labels, 'name': I.fresh(VAL, 'test_name')})
+    tr = I.alloc('TestResultX', {'test': test, 'verdict': I.fresh(BOOL, 'verdict')})
+    scope.set('test_result', tr)
+    scope.set('labels_lod', [])
+    scope.set('the_labels', labels)
+    I.lod_tr = tr
+
+
+def c_lod():
+    others = ('all(implies(k != "_test_name" and k != "_result", (k in labels_lod[0]) == (k in the_labels) and implies(k in the_labels, same(labels_lod[0][k], the_labels[k]))) '
+              'for k in Strings)')
+    return Contract(SF, 'TestStatsTestsByLabels._build_labels_lod', params={}, signals={}, variant='one-test-result',
+                    ensures=[('C18-one-entry-per-test-result', 'len(labels_lod) == 1'),
+                             ('C18-the-reserved-label-_test_name-is-the-name-of-the-test-whatever-the-user-labels', 'same(labels_lod[0]["_test_name"], test_result.test.name)'),
+                             ('C18-the-reserved-label-_result-is-the-outcome-of-the-test-whatever-the-user-labels',
+                              'same(labels_lod[0]["_result"], TestOutcome.SUCCESS) == test_result.verdict and same(labels_lod[0]["_result"], TestOutcome.FAILURE) == (not test_result.verdict)'),
+                             ('C18-every-other-label-is-the-label-of-the-test', others),
+                             ('C18-the-labels-of-the-test-are-not-modified', 'same(test_result.test.labels, the_labels)')])
+
+
 def units(tier):
-    return ['tasks_evaluate', 'bool_tasks', 'bool_tests', 'bylabels_oracles', 'bylabels_bool', 'counts_frame', 'native']
+    return ['tasks_evaluate', 'bool_tasks', 'bool_tests', 'bylabels_oracles', 'bylabels_bool', 'labels_lod', 'counts_frame', 'native']
 
 
 def _replay_native(name, inp):
@@ -226,6 +286,8 @@ def run_unit(unit, tier, seed, known):
         w = make_world(TESTS_DICT)
         w.add(c_bylabels('oracles'))
         res = verify_function(w, c_bylabels('__bool__'))
+    elif unit == 'labels_lod':
+        res = verify_function(lod_world(), c_lod(), setup=lod_setup, body_of=lod_body)
     elif unit == 'counts_frame':
         w = make_world(TASKS_DICT)
         res = verify_function(w, c_counts())
